@@ -194,6 +194,9 @@ func (a *stdTransport) RoundTrip(req *http.Request) (*http.Response, error) {
 	}
 	// The server has responded with Unauthorized (401) even though we've just
 	// provided a token that it gave us. Treat it as Forbidden (403) instead.
+	r.mu.Lock()
+	r.forgetRefusedToken(req)
+	r.mu.Unlock()
 	// TODO include the original body/error as part of the message or message detail?
 	resp.Body.Close()
 	data, err := json.Marshal(&ociregistry.WireErrors{
@@ -265,6 +268,8 @@ func (r *registry) setAuthorizationFromChallenge(ctx context.Context, req *http.
 	r.mu.Lock()
 	defer r.mu.Unlock()
 	r.wwwAuthenticate = challenge
+
+	r.forgetRefusedToken(req)
 
 	switch {
 	case r.wwwAuthenticate.scheme == "bearer":
@@ -509,6 +514,21 @@ func (r *registry) doTokenRequest(req *http.Request) (*wireToken, error) {
 // deleteExpiredTokens removes all tokens from r that expire after the given
 // time.
 // TODO ask the store to remove expired tokens?
+// forgetRefusedToken removes from the cache the access token, if any, that
+// req carried. It's called when the registry has just answered that
+// request with 401: if the token stayed, it would be chosen again in
+// preference to any token acquired from now on.
+// It must be called with r.mu held.
+func (r *registry) forgetRefusedToken(req *http.Request) {
+	tok, ok := strings.CutPrefix(req.Header.Get("Authorization"), "Bearer ")
+	if !ok {
+		return
+	}
+	r.accessTokens = slices.DeleteFunc(r.accessTokens, func(t *scopedToken) bool {
+		return t.token == tok
+	})
+}
+
 func (r *registry) deleteExpiredTokens(now time.Time) {
 	r.accessTokens = slices.DeleteFunc(r.accessTokens, func(tok *scopedToken) bool {
 		return now.After(tok.expires)
